@@ -50,6 +50,7 @@ static void prior_use(int ov)
     memset(c, 0xDD, sizeof other);
     free(c);
 }
+static int PHIST;
 static int call_overload(int ov, const uint8_t *b, size_t n, Binson &out)
 {
     OVERLOAD = ov;
@@ -69,7 +70,16 @@ static int call_overload(int ov, const uint8_t *b, size_t n, Binson &out)
             uint8_t *c = (uint8_t *) malloc(n ? n : 1);
             if (n) memcpy(c, b, n);
             BINSON_PARSER_DEF(p);
-            (void) binson_parser_init(&p, n ? c : c + 1, n);
+            bool inited = binson_parser_init(&p, n ? c : c + 1, n);
+            /* what the caller did with ITS parser before handing it over (the wrapper rewinds it): 0 nothing, 1 a partial traversal,
+             * 2 an error raised without consuming a byte (NULL name lookup), 3 a getter before the first next, 4 a verify */
+            if (inited) switch (PHIST) {
+                case 1: binson_parser_go_into_object(&p); binson_parser_next(&p); break;
+                case 2: binson_parser_field_with_length(&p, NULL, 3); break;
+                case 3: (void) binson_parser_get_name(&p); (void) binson_parser_get_integer(&p); break;
+                case 4: (void) binson_parser_verify(&p); break;
+                default: break;
+            }
             try { out.deserialize(&p); } catch (...) { free(c); throw; }
             free(c);
         }
@@ -84,14 +94,19 @@ static int call_overload(int ov, const uint8_t *b, size_t n, Binson &out)
 static bool check_bytes_once(const uint8_t *b, size_t n, bool counting)
 {
     int ref = vf_ref_decode(b, n, VK_OBJ, 10, NULL);
-    for (int ov = 0; ov < 3; ov++) {
+    for (int ovh = 0; ovh < 7; ovh++) {
+        int ov = ovh < 3 ? ovh : 2;
+        PHIST = ovh < 3 ? 0 : ovh - 2;
         Binson x;
         x.put("zz_left_over_from_an_earlier_use", BinsonValue(7));      /* the object is REUSED: deserialize must replace, not merge */
+        /* ... also under keys the document itself may use (a stale value must not survive under the same key) */
+        x.put(std::string(), BinsonValue(std::string("stale"))); x.put("a", Binson().put("stale", BinsonValue(true))); x.put(std::string("\0k", 2), BinsonValue(8.5));
+        x.put("ab", BinsonValue(std::vector<BinsonValue>({ BinsonValue(1) }))); x.put("\x80", BinsonValue(9)); x.put("A", BinsonValue(false)); x.put("b", BinsonValue(10));
         int r = call_overload(ov, b, n, x);
         if (counting) { vf_count(CT_STATES, 1); vf_count(r == 1 ? CT_RETURNED : CT_THREW, 1); }
         if (r == 3) { snprintf(why, sizeof why, "overload %d threw something that is not a std::exception", ov); snprintf(sigk, sizeof sigk, "bytes:non-std-exception:ov%d", ov); return false; }
         if ((r == 1) != (ref == VR_OK)) {
-            snprintf(why, sizeof why, "overload %d %s, but the reference recogniser (object, depth 10) says %s", ov, r == 1 ? "returned normally" : "threw", vf_vr_name[ref]);
+            snprintf(why, sizeof why, "overload %d (parser history %d) %s, but the reference recogniser (object, depth 10) says %s", ov, PHIST, r == 1 ? "returned normally" : "threw", vf_vr_name[ref]);
             snprintf(sigk, sizeof sigk, "bytes:%s:ov%d", r == 1 ? "accepts-invalid" : "rejects-valid", ov);
             return false;
         }
@@ -164,6 +179,15 @@ static Binson mkobject(int id, unsigned perm)
     std::vector<int> pool = kids;
     for (unsigned i = k; i >= 1; i--) { unsigned f = factorial(i - 1), idx = code / f; code %= f; order.push_back(pool[idx]); pool.erase(pool.begin() + idx); }
     Binson b;
+    /* every second insertion order: each key first receives a decoy of another type through one of the three put overloads; the
+     * real put that follows must replace it */
+    if (perm & 1)
+        for (int c : order) {
+            const vf_node *x = &D->n[c];
+            if (x->kind == VK_INT) b.put(node_name(c), Binson().put("decoy", BinsonValue(1)));
+            else if (x->kind == VK_OBJ) b.put(node_name(c), (const uint8_t *) "dd", 2);
+            else b.put(node_name(c), BinsonValue((int64_t) 77));
+        }
     for (int c : order) {
         const vf_node *x = &D->n[c];
         if (x->kind == VK_OBJ && (c & 1)) b.put(node_name(c), mkobject(c, perm));              /* put(key, Binson) */
@@ -213,6 +237,7 @@ static bool check_tree_once(const vf_doc *d, bool counting)
 {
     D = d;
     unsigned np = max_perms(d);
+    if (np < 2) np = 2;         /* odd orders run the overwrite variant */
     if (counting) vf_max(CT_MAXPERM, np);
     for (unsigned perm = 0; perm < np; perm++) {
         OVERLOAD = (int) perm;
